@@ -535,4 +535,19 @@ example : let s := runActs false 1 (init [2, 1, 1]) deadlockSchedule
 
 example : stuck false 1 (runActs false 1 (init [2, 1, 1]) deadlockSchedule) = false := by decide
 
+/-! ### a step bound: every executed step costs at least one unit of `measure` -/
+
+theorem executed_le_measure {keep : Bool} {cap : Nat} : ∀ (acts : List Act) (s : LSt), WF s →
+    measure (runActs keep cap s acts) + executed keep cap s acts ≤ measure s
+  | [], _, _ => by simp [runActs, executed]
+  | a :: as, s, hwf => by
+    simp only [runActs, executed]
+    cases hst : step keep cap s a with
+    | none => exact executed_le_measure as s hwf
+    | some s' =>
+      simp only []
+      have h1 := step_measure hwf hst
+      have h2 := executed_le_measure (keep := keep) (cap := cap) as s' (step_wf hwf hst)
+      omega
+
 end Rustic.LockNet
